@@ -394,6 +394,11 @@ func (g *Gen) genTx(w *World) []TxSpec {
 	case "nest":
 		return g.nestTx(w)
 	case "multi":
+		if g.pct(12) {
+			if ts, ok := g.multiPurchaseTx(w); ok {
+				return []TxSpec{ts}
+			}
+		}
 		if g.Flags["overflow"] && g.pct(20) {
 			if ts, ok := g.doublePurchaseTx(w); ok {
 				return []TxSpec{ts}
@@ -402,6 +407,43 @@ func (g *Gen) genTx(w *World) []TxSpec {
 		return []TxSpec{g.multiTx(w)}
 	}
 	return nil
+}
+
+// multiPurchaseTx: one owner buys storage for several of its registrations (or twice for the same
+// one) in a single transaction; some of the purchases may exceed what is left.
+func (g *Gen) multiPurchaseTx(w *World) (TxSpec, bool) {
+	kind := pick(g.R, []string{"wrk", "bcn"})
+	rm := w.M.Wrk
+	if kind == "bcn" {
+		rm = w.M.Bcn
+	}
+	byOwner := map[string][]uint64{}
+	for _, id := range rm.ids() {
+		byOwner[rm.Regs[id].Owner] = append(byOwner[rm.Regs[id].Owner], id)
+	}
+	owners := sortedKeys(byOwner)
+	if len(owners) == 0 {
+		return TxSpec{}, false
+	}
+	ownerAddr := pick(g.R, owners)
+	ids := byOwner[ownerAddr]
+	owner := g.actorByAddr(w, ownerAddr)
+	n := 2 + g.R.Intn(2)
+	var msgs []MsgSpec
+	for i := 0; i < n; i++ {
+		id := pick(g.R, ids)
+		reg := rm.Regs[id]
+		room := new(big.Int).Sub(new(big.Int).SetUint64(rm.P.MaxLimit), reg.Limit)
+		num := uint64(1 + g.R.Intn(3))
+		if g.pct(35) && room.IsUint64() {
+			num = room.Uint64() + uint64(1+g.R.Intn(2)) // more than is left
+		}
+		msgs = append(msgs, MsgSpec{T: kind + ".purchase", A: owner, Id: id, N: num})
+	}
+	w.Fault("msg.multi_purchase")
+	ts := TxSpec{Signer: owner, Gas: ampleGas * 2, Msgs: msgs}
+	g.setFee(w, &ts)
+	return ts, true
 }
 
 // doublePurchaseTx: two storage purchases for the same registration in one transaction whose
@@ -532,15 +574,32 @@ func (g *Gen) setFee(w *World, ts *TxSpec) {
 		if ts.Fee == "" {
 			ts.Fee = extra
 		} else {
-			// keep coins sorted by denom as the SDK requires (nund < stake < ufoo)
-			ts.Fee = ts.Fee + "," + extra
+			ts.Fee = sortCoinString(ts.Fee + "," + extra)
 		}
 		w.Fault("fee.extra_denom")
 	}
 	if g.Flags["granter"] && g.pct(12) {
 		ts.Granter = 1 + g.otherActor(ts.Signer)
 		w.Fault("fee.granter")
+	} else if g.Flags["granter"] && g.pct(14) {
+		// a sponsor pays the fee and co-signs
+		ts.Payer = 1 + g.otherActor(ts.Signer)
+		w.Fault("fee.explicit_payer")
 	}
+}
+
+// sortCoinString orders "1a,2b" style fee strings by denomination (the SDK wants sorted fees).
+func sortCoinString(s string) string {
+	parts := strings.Split(s, ",")
+	den := func(x string) string {
+		i := 0
+		for i < len(x) && x[i] >= '0' && x[i] <= '9' {
+			i++
+		}
+		return x[i:]
+	}
+	sort.SliceStable(parts, func(i, j int) bool { return den(parts[i]) < den(parts[j]) })
+	return strings.Join(parts, ",")
 }
 
 func (g *Gen) txFaults(w *World, ts *TxSpec) {
@@ -667,6 +726,23 @@ func randStr(r *rand.Rand, n int) string {
 	return string(b)
 }
 
+// regStr: mostly plain random strings; sometimes with leading/trailing blanks or only blanks
+// (registrations must store exactly what was submitted)
+func (g *Gen) regStr(limit int) string {
+	x := randStr(g.R, g.fieldLen(limit))
+	switch g.R.Intn(40) {
+	case 0:
+		return " " + x
+	case 1:
+		return x + " "
+	case 2:
+		return "  " + x + "\t"
+	case 3:
+		return " "
+	}
+	return x
+}
+
 func (g *Gen) fieldLen(limit int) int {
 	if g.pct(6) {
 		return pick(g.R, []int{limit - 1, limit, limit + 1})
@@ -684,9 +760,9 @@ func (g *Gen) regMsg(w *World, kind string) MsgSpec {
 	if len(ids) == 0 || x < 15 {
 		owner := g.actor()
 		if kind == "wrk" {
-			return MsgSpec{T: "wrk.register", A: owner, S: []string{randStr(g.R, g.fieldLen(64)), randStr(g.R, g.fieldLen(128)), randStr(g.R, g.fieldLen(66)), pick(g.R, []string{"geth", "cosmos", "tendermint", ""})}}
+			return MsgSpec{T: "wrk.register", A: owner, S: []string{g.regStr(64), g.regStr(128), g.regStr(66), pick(g.R, []string{"geth", "cosmos", "tendermint", "", " geth"})}}
 		}
-		return MsgSpec{T: "bcn.register", A: owner, S: []string{randStr(g.R, g.fieldLen(64)), randStr(g.R, g.fieldLen(128))}}
+		return MsgSpec{T: "bcn.register", A: owner, S: []string{g.regStr(64), g.regStr(128)}}
 	}
 	id := pick(g.R, ids)
 	reg := rm.Regs[id]
